@@ -23,6 +23,21 @@ def run(chk, repo, tier):
     chk.explanation = ("subgroup_check and the two cofactor-clearing functions are reduced to terms over the optimized BLS12-381 "
                        "module's multiply/is_inf; the scalar constants are folded and compared with values re-derived from the "
                        "curve parameter x; the group orders are checked with integer arithmetic (CM equation for the twist).")
+    # restate C13
+    from . import C13 as _dep_C13
+    from ..report import SubCheck as _SubCheck
+    chk.rule("C17.R4", "multiply / is_inf / double / add of the optimized BLS12-381 module are the group law on every path (C13 re-stated): [r]P and [h_eff]P are what the terms say", 20)
+    _sub = _SubCheck()
+    _err = None
+    try:
+        _dep_C13.run(_sub, repo, tier)
+    except AnalysisError as _e:
+        _err = _e
+    for _rule, _construct, _key, _ok, _detail, _where in _sub.obs:
+        if True and ("bls12_381" in _construct):
+            chk.ob("C17.R4", _construct, f"[{_rule}] {_key}", _ok, _detail, _where)
+    if _err is not None and all(o[3] for o in _sub.obs):
+        raise _err
     chk.rule("C17.R1", "subgroup_check(P) is is_inf(multiply(P, r)), r the prime group order, on the optimized BLS module's functions", 2)
     chk.rule("C17.R2", "H_EFF_G1, H_EFF_G2, G2_COFACTOR equal the values derived from x; clearing = multiply by them", 5)
     chk.rule("C17.R3", "#E(F_p) = h1·r; h2·r is the order of a sextic twist of E over F_p²; h2 | H_EFF_G2", 3)
